@@ -126,3 +126,14 @@ M("c18-si32", "C18", "decoder/uplink.py", '            3: "SI" + str(icField + 3
 M("c18-fields-los", "C18", "decoder/uplink.py", "        elif di == 1:\n            # II\n            II = (mbytes[2] >> 4) & 0xF\n            IC = \"II\" + str(II)\n            if ((mbytes[3] & 0x40) >> 6) == 1:", "        elif di == 1:\n            # II\n            II = (mbytes[2] >> 4) & 0xF\n            IC = \"II\" + str(II)\n            if ((mbytes[3] & 0x80) >> 7) == 1:")
 M("c18-pr", "C18", "decoder/uplink.py", "    if uf(msg) == 11:\n        return ((mbytes[0] & 0x7) << 1) | ((mbytes[1] & 0x80) >> 7)", "    if uf(msg) == 11:\n        return ((mbytes[0] & 0x3) << 1) | ((mbytes[1] & 0x80) >> 7)")
 M("c18-uf24", "C18", "decoder/uplink.py", "    return min(common.bin2int(ufbin[0:5]), 24)", "    return min(common.bin2int(ufbin[0:5]), 25)")
+
+# ---- C20
+M("c20-lapse", "C20", "extra/aero.py", "    T = np.maximum(288.15 - 0.0065 * H, 216.65)", "    T = np.maximum(288.15 - 0.0056 * H, 216.65)")
+M("c20-scale", "C20", "extra/aero.py", "    rho = rhotrop * np.exp(-dhstrat / 6341.552161)", "    rho = rhotrop * np.exp(-dhstrat / 6431.5)")
+M("c20-35", "C20", "extra/aero.py", "    qdyn = p * ((1 + rho * Vtas * Vtas / (7 * p)) ** 3.5 - 1.0)", "    qdyn = p * ((1 + rho * Vtas * Vtas / (7 * p)) ** 3 - 1.0)")
+M("c20-27", "C20", "extra/aero.py", "    Vtas = np.sqrt(7 * p / rho * ((1 + qdyn / p) ** (2 / 7.0) - 1.0))", "    Vtas = np.sqrt(7 * p / rho * ((1 + qdyn / p) ** (2 / 7.5) - 1.0))")
+M("c20-mod", "C20", "extra/aero.py", "    bearing = (initial_bearing + 360) % 360", "    bearing = initial_bearing")
+M("c20-D17-regress", "C20", "extra/aero.py", "    cos = np.where(cos < -1, -1, cos)\n", "")
+M("c20-eas", "C20", "extra/aero.py", "    Veas = Vtas * np.sqrt(rho / rho0)", "    Veas = Vtas * np.sqrt(rho / 1.2)")
+M("c20-trop", "C20", "extra/aero.py", "    dhstrat = np.maximum(0.0, H - 11000.0)", "    dhstrat = np.maximum(0.0, H - 11100.0)")
+M("c20-array", "C20", "extra/aero.py", "def vsound(H):\n    \"\"\"Speed of sound\"\"\"\n    T = temperature(H)", "def vsound(H):\n    \"\"\"Speed of sound\"\"\"\n    T = temperature(np.max(H))")
